@@ -999,8 +999,13 @@ def r5_ensembles(chk):
     allocs = [sv[0] for sv in alloc_val.values()]
     rows = []
     # (a) allocated inside the list branch with len(list) rows
+    # (the case is "a list, and every entry a structure": where the second test is spelled as its own conjunct, an arm under its
+    # negation - a list of something else - is not the case)
+    def _is_list_case(cs):
+        return f"isinstance({src_p}, list)" in cs and not any(c_.startswith("not all(") and "Structure" in c_ for c_ in cs)
+
     for s_ in allocs:
-        if f"isinstance({src_p}, list)" in conds_at(s_):
+        if _is_list_case(conds_at(s_)):
             rows.append(norm(ienv.expand(alloc_val[id(s_)][1].args[0].elts[0], at=s_)))
     if not rows:
         # (b) the row count is named in the list branch (`n = len(list)`) and the allocation that follows uses that name
